@@ -253,6 +253,7 @@ pub struct Stats {
     pub violations: Vec<Violation>,
     pub nviol: usize,
     pub primed: usize,
+    pub repeated: usize,
     pub prime_failed: usize,
     pub samples: Vec<Value>,
     /// advisory: how often the PasetoError variant predicted by the step-by-step model was the one observed
@@ -289,6 +290,7 @@ impl Stats {
         self.distinct.extend(o.distinct);
         self.nviol += o.nviol;
         self.primed += o.primed;
+        self.repeated += o.repeated;
         self.prime_failed += o.prime_failed;
         self.variant_total += o.variant_total;
         self.variant_agree += o.variant_agree;
@@ -570,6 +572,21 @@ pub fn replay_case(
                     inst.footer(&p.f),
                     if ppr.has_assertion() { inst.assertion(&p.a) } else { None },
                 );
+                // a rejection must be stable: the first tokens of a case are presented a second time at once
+                // (a refusal must not leave anything behind that makes the same presentation pass next time)
+                let (out, calls) = if p.exp != "ok" && ti < 2 && !out.is_ok() {
+                    st.repeated += 1;
+                    present(
+                        ppr,
+                        *layer,
+                        t,
+                        &inst.keys[&p.k],
+                        inst.footer(&p.f),
+                        if ppr.has_assertion() { inst.assertion(&p.a) } else { None },
+                    )
+                } else {
+                    (out, calls)
+                };
                 st.presentations += 1;
                 st.distinct.insert(hash_str(&format!("{}|{}|{}|{}|{}|{:?}", t, p.pr, p.k, p.f, p.a, layer)));
                 match (&*p.exp, &out) {
